@@ -1158,18 +1158,31 @@ fn header_chain_break(ast: &Ast, cbt: u8) -> bool {
     false
 }
 
-/// number of comments whose previous code token is a closing bracket on the same line
-fn comments_behind_closer(toks: &[Tk]) -> usize {
-    let mut n = 0;
+/// per comment (in token order): is its previous code token a closing bracket — `)`, `]`, `}` or the `|` that
+/// closes a function's parameter list — on the same line?
+fn comments_behind_closer(toks: &[Tk]) -> Vec<bool> {
+    let mut v = vec![];
+    let mut bars = 0usize; // `|` tokens seen so far: the 2nd, 4th, … close a parameter list
     for (i, t) in toks.iter().enumerate() {
+        if t.token == Token::Function {
+            bars += 1;
+        }
         if matches!(t.token, Token::CommentSingle | Token::CommentMulti) {
             let prev = toks[..i].iter().rev().find(|p| p.token != Token::Whitespace);
-            if prev.is_some_and(|p| matches!(p.token, Token::RoundClose | Token::SquareClose | Token::CurlyClose) && p.eline == t.line) {
-                n += 1;
-            }
+            v.push(prev.is_some_and(|p| {
+                p.eline == t.line
+                    && (matches!(p.token, Token::RoundClose | Token::SquareClose | Token::CurlyClose) || (p.token == Token::Function && bars % 2 == 0))
+            }));
         }
     }
-    n
+    v
+}
+
+/// F-C11-10 residual (after 3ee7e6a): some comment that did NOT stand behind a closer in the input stands behind
+/// one in the first-pass output (same comment count, compared comment by comment).
+fn comment_migrated_behind_closer(input: &[Tk], out1: &[Tk]) -> bool {
+    let (a, b) = (comments_behind_closer(input), comments_behind_closer(out1));
+    a.len() == b.len() && a.iter().zip(&b).any(|(x, y)| !*x && *y)
 }
 
 /// number of comment tokens that are the first token on their line
@@ -1315,24 +1328,18 @@ fn static_shapes(src: &str, ast: &Ast, toks: &[Tk]) -> Vec<&'static str> {
             }
         }
     }
-    // F-C11-10: a single-line comment whose next code token is a closing bracket / closing `|`, or that
-    // sits inside an import item list (after an item's comma)
-    for (i, t) in toks.iter().enumerate() {
-        if t.token == Token::CommentSingle {
-            let next = toks[i + 1..].iter().find(|n| !matches!(n.token, Token::Whitespace | Token::NewLine | Token::CommentSingle | Token::CommentMulti));
-            if next.is_some_and(|n| matches!(n.token, Token::RoundClose | Token::SquareClose | Token::CurlyClose | Token::Function)) {
-                v.push("comment_before_closer");
-            }
-            let prev = toks[..i].iter().rev().find(|p| p.token != Token::Whitespace);
-            // the comma belongs to an import item list: going back over item tokens only, an `import` keyword is reached
-            let in_import = toks[..i]
-                .iter()
-                .rev()
-                .take_while(|x| matches!(x.token, Token::Whitespace | Token::NewLine | Token::CommentSingle | Token::CommentMulti | Token::Comma
-                    | Token::Id | Token::As | Token::Dot | Token::StringStart(_) | Token::StringEnd | Token::StringLiteral | Token::Import))
-                .any(|x| x.token == Token::Import);
-            if prev.is_some_and(|p| p.token == Token::Comma) && in_import {
-                v.push("comment_in_import_list");
+    // F-C11-10 (what is left after /repo 3ee7e6a): a single-line comment inside a string interpolation `{…}`.
+    // (The former shapes `comment_before_closer` — next code token a closing bracket / closing `|` — and
+    // `comment_in_import_list` were removed with 3ee7e6a: a line comment now forces a line break behind it in every
+    // builder group, so clauses 2, 3, 4 and 6 are enforced for those programs; see CURED_BY_3EE7E6A.)
+    {
+        let mut depth = 0usize;
+        for t in toks {
+            match t.token {
+                Token::StringStart(_) => depth += 1,
+                Token::StringEnd => depth = depth.saturating_sub(1),
+                Token::CommentSingle if depth > 0 => v.push("comment_in_interpolation"),
+                _ => {}
             }
         }
     }
@@ -1480,7 +1487,7 @@ fn worker_handle(line: &str) -> String {
         if fails.iter().any(|f| f["clause"].as_str() == Some("5:idempotence")) {
             if let Ok(Ok(out1)) = kvh::catch(|| format(&src, o.to_fo())) {
                 if let Some(t1) = lex_all(&out1) {
-                    if comments_behind_closer(&t1) > comments_behind_closer(&toks) {
+                    if comment_migrated_behind_closer(&toks, &t1) {
                         oshapes.push("comment_migrated_behind_closer");
                     }
                 }
@@ -2087,7 +2094,7 @@ impl Gen {
     fn stmt(&mut self, ind: usize, d: u32) {
         let pad = " ".repeat(ind);
         let st = self.step;
-        let choice = if d == 0 { self.rng.weighted(&[6, 5, 1, 1]) } else { self.rng.weighted(&[6, 5, 1, 1, 3, 3, 2, 2, 2, 2, 2, 2, 1, 1, 1, 1, 2, 2, 2]) };
+        let choice = if d == 0 { self.rng.weighted(&[6, 5, 1, 1]) } else { self.rng.weighted(&[6, 5, 1, 1, 3, 3, 2, 2, 2, 2, 2, 2, 1, 1, 1, 1, 2, 2, 2, 2]) };
         match choice {
             0 => {
                 // assignment
@@ -2413,6 +2420,7 @@ impl Gen {
             16 => self.skip_stmt(ind),
             17 => self.call_with_breaking_args(ind),
             18 => self.layout_state_sequence(ind, d),
+            19 => self.comment_in_group(ind),
             _ => {
                 // lines with non-ASCII text and no number literal / comment after it
                 let idb = *self.rng.pick(&NONASCII_IDS);
@@ -2462,6 +2470,66 @@ impl Gen {
             _ => call,
         };
         self.line(ind, &t);
+    }
+
+    /// A line comment INSIDE a bracket-like group (tuple, list, map, parenthesised operand / chain root, call
+    /// arguments, index, function parameters, import item list, string interpolation), at every gap: behind the
+    /// opener, behind an element, behind a comma, in front of the closer. Since /repo 3ee7e6a (C11-fix-12) a line
+    /// comment forces a line break behind it in every group kind, so clauses 2, 3, 4 and 6 are ENFORCED here (only
+    /// the interpolation template keeps an attribution, `comment_in_interpolation`).
+    fn comment_in_group(&mut self, ind: usize) {
+        const T: &[&str] = &[
+            "t% = (@1, @2@)\nprint t%",
+            "l% = [@1,@ 2 @, 3@]\nprint l%",
+            "m% = {@a: 1,@ b: 2@}\nprint m%",
+            "n% = (@1 + 2@) * 3\nprint n%",
+            "k% = (@1@).abs()\nprint k%",
+            "f% = |a, b@| a + b\nprint f% 1, 2",
+            "print(@1, @2@)",
+            "g% = |a, b| a\nprint g%(@1,@ 2@)",
+            "print [1, 2][@0@]",
+            "x% = [(@1, 2@), 3@]\nprint x%",
+            "y% = {a: (1@), b: 2@}\nprint y%",
+            "import number, @string\nprint number.pi",
+            "from number import pi, @e\nprint pi",
+            "from number import@ pi, @e\nprint e",
+            "w% = [1, 2@].size()\nprint w%",
+            "for a% in (@1, 2@)\n  print a%",
+            "q% = (@1, 2@) # trailing\nprint q%",
+            "r% = [\n  1,\n  2@\n]\nprint r%",
+            "s% = {\n  a: 1,\n  b: 2@\n} # c2\nprint s%",
+            "u% = ((@1, 2@), [@3@])\nprint u%",
+            "v% = (1, 2@) + (3,)\nprint v%",
+            "print '{(@1@)}'",
+        ];
+        let pad = " ".repeat(ind);
+        let n = self.fresh("");
+        let t = self.rng.pick(T).replace('%', &n);
+        let gaps = t.matches('@').count();
+        let chosen = self.rng.below(gaps);
+        let second = if self.rng.chance(1, 5) { Some(self.rng.below(gaps)) } else { None };
+        let mut text = String::new();
+        let mut k = 0;
+        for ch in t.chars() {
+            match ch {
+                '@' => {
+                    let cont = if self.rng.chance(1, 2) { " ".repeat(self.step) } else { String::new() };
+                    if k == chosen || Some(k) == second {
+                        let c = *self.rng.pick(&["c", "note", "x = 1", "ü 字", "#"]);
+                        text.push_str(&format!("{}# {}\n{pad}{cont}", self.sp1(), c));
+                    } else if self.rng.chance(1, 8) {
+                        text.push_str(&format!("\n{pad}{cont}"));
+                    }
+                    k += 1;
+                }
+                '\n' => {
+                    text.push('\n');
+                    text.push_str(&pad);
+                }
+                c => text.push(c),
+            }
+        }
+        self.out.push_str(&format!("{pad}{text}\n"));
     }
 
     /// Cross-statement interaction inside ONE block: statements that put the block's layout state into an
@@ -2655,12 +2723,33 @@ const FINDINGS: &[(&str, &str, &[&str])] = &[
     ("F-C11-12", "fmt_skip_short_span", &["2:", "3:", "5~", "6:"]),
     ("F-C11-15", "block_in_brackets", &["2:", "3:", "5~"]),
     ("F-C11-17", "code_after_multiline_comment", &["2:", "3:", "5~"]),
-    ("F-C11-10", "comment_migrated_behind_closer", &["5:idempotence"]),
+    ("F-C11-10", "comment_migrated_behind_closer", &["5:idempotence-only"]),
     ("F-C11-9", "block_expr_operand", &["2:", "3:", "5~"]),
     ("F-C11-9", "line_starts_with_minus", &["2:", "3:", "5~"]),
-    ("F-C11-10", "comment_before_closer", &["2:", "3:", "4:", "5~", "5:idempotence+4"]),
-    ("F-C11-10", "comment_in_import_list", &["2:", "3:", "4:", "5~"]),
+    ("F-C11-10", "comment_in_interpolation", &["2:", "3:", "4:", "5~"]),
 ];
+/// F-C11-10 witnesses cured by /repo 3ee7e6a (C11-fix-12: a nested item that ends in a line comment is followed by a
+/// forced line break in every builder group). They are checked on the full option grid with NO attribution for
+/// clauses 1, 2, 3, 4, 6 and `5:error/panic-on-own-output` (not even the width class): a recurrence is a VIOLATION.
+/// Only `5:idempotence` goes through the ordinary attribution (residual rule of F-C11-10: the pair fails nothing
+/// else and a comment has migrated behind a closer in the first-pass output; or F-C11-11's rule).
+const CURED_BY_3EE7E6A: &[(&str, &str)] = &[
+    ("import_list", "import number, # c1\n  string\nprint number.pi\n"),
+    ("from_import_list", "from number import\n  pi, # first\n  e\nprint pi, e\n"),
+    ("tuple_closer", "x = (1, 2 # c\n)\nprint x\n"),
+    ("nested_binop", "a = 1\nb = 2\nx = (a # c\n) + b\nprint x\n"),
+    ("nested_chain_root", "x = (1 # c\n).abs()\nprint x\n"),
+    ("function_parameters", "f = |a, b # c1\n| a\nprint f 1, 2\n"),
+    ("call_arguments", "f = |a, b| a\nprint f(\n  1,\n  2 # c1\n)\n"),
+    ("call_arguments_two_comments", "f = |a, b| a\nprint f(\n  1,\n  2 # c1\n) # c2\n"),
+    ("nested_in_list", "a = 1\nb = 2\nx = [(a # c\n), b]\nprint x\n"),
+    ("nested_in_map", "x = {a: (1 # c\n), b: 2}\nprint x\n"),
+    ("list_closer", "x = [\n  1,\n  2 # c\n]\nprint x\n"),
+    ("list_closer_one_line", "y = [1, 2 # c\n]\nprint y\n"),
+    ("map_closer_two_comments", "m = {\n  b: 1 # c1\n} # c2\nprint m\n"),
+    ("index", "print [1, 2][0 # c\n]\n"),
+];
+
 /// The class finding: clauses 2/3/5 at line_length < 255 that hold for the same program and the
 /// same other options at line_length 255 (the failure is caused by width-forced breaking).
 const WIDTH_CLASS: &str = "F-C11-6";
@@ -2707,7 +2796,9 @@ impl Ctx {
     /// `all`: every failing clause of the same (program, options) pair. Clause patterns: a prefix; `5~` =
     /// `5:error-on-own-output` / `5:panic-on-own-output` always, `5:idempotence` only when the pair also fails
     /// clause 2 (the finding's symptom is a first-pass output that does not parse back to the same Ast — a
-    /// pure idempotence failure is NOT explained by it); `5:idempotence+4` = idempotence when clause 4 fails too.
+    /// pure idempotence failure is NOT explained by it); `5:idempotence-only` = `5:idempotence` when it is the ONLY
+    /// failing clause of the pair (clauses 1, 2, 3, 4, 6 hold: the first-pass output is a correct formatting of the
+    /// input, merely not a fixed point).
     fn attribute(&self, prog_shapes: &[String], opt_shapes: &[String], clause: &str, all: &[String]) -> Option<&'static str> {
         for (id, shape, clauses) in FINDINGS {
             if !self.open.iter().any(|x| x == id) || (self.width_mode && *id == WIDTH_CLASS) {
@@ -2715,10 +2806,10 @@ impl Ctx {
             }
             let has = prog_shapes.iter().any(|s| s == shape) || opt_shapes.iter().any(|s| s == shape);
             let fails2 = all.iter().any(|c| c.starts_with("2:"));
-            let fails4 = all.iter().any(|c| c.starts_with("4:"));
+            let only5i = all.iter().all(|c| c == "5:idempotence");
             let explained = clauses.iter().any(|c| match *c {
                 "5~" => clause == "5:error-on-own-output" || clause == "5:panic-on-own-output" || (clause == "5:idempotence" && fails2),
-                "5:idempotence+4" => clause == "5:idempotence" && fails4,
+                "5:idempotence-only" => clause == "5:idempotence" && only5i,
                 c => clause.starts_with(c),
             });
             if has && explained {
@@ -2886,8 +2977,10 @@ impl Ctx {
             for f in &fails {
                 let clause = f["clause"].as_str().unwrap_or("").to_string();
                 let all: Vec<String> = fails.iter().filter_map(|f| f["clause"].as_str().map(String::from)).collect();
-                let mut id: Option<String> = self.attribute(&shapes, &oshapes, &clause, &all).map(String::from);
-                if id.is_none() && o.ll < 255 && is_width_clause(&clause) && self.open.iter().any(|x| x == WIDTH_CLASS) {
+                // the witnesses cured by 3ee7e6a: nothing but the residual pure idempotence failure may be attributed
+                let strict = p.source == "cured" && clause != "5:idempotence";
+                let mut id: Option<String> = if strict { None } else { self.attribute(&shapes, &oshapes, &clause, &all).map(String::from) };
+                if id.is_none() && !strict && o.ll < 255 && is_width_clause(&clause) && self.open.iter().any(|x| x == WIDTH_CLASS) {
                     let c = Opt { ll: 255, ..o };
                     if let Some(r255) = by_opt.get(&c.text()) {
                         let un = self.unexplained(&shapes, r255);
@@ -3437,6 +3530,13 @@ fn main() {
         }
     }
     let grid = full_grid();
+    for (name, src) in CURED_BY_3EE7E6A {
+        let p = Prog { name: format!("cured-by-3ee7e6a:{}", name), src: src.to_string(), runnable: true, path: None, source: "cured" };
+        match cx.check(&p, &grid) {
+            Outcome::NoParse => cx.rep.violation("D", "C11:regression:F-C11-10:cured-witness-does-not-parse", json!({"program": src, "name": name})),
+            Outcome::Done { .. } => {}
+        }
+    }
     if let Some(dir) = &args.corpus {
         let mut fs = vec![];
         walk(dir, &["koto"], &mut fs);
